@@ -19,7 +19,7 @@ package interpreter
 //@ func (s selectInterpreter) Eval(userCtx interface{}, node parsley.NonTerminalNode) (v interface{}, err parsley.Error)
 //@   requires node != nil && 0 <= s.i && s.i < len(node.Children()) && node.Children()[s.i] != nil && parsley.NodeOK(node.Children()[s.i])
 //@   ensures  err != nil ==> err.Pos() >= 0
-//@   assigns  fields[parsley.Node]()
+//@   assigns  fields[parsley.Node]("children")
 //@ func (s selectInterpreter) StaticCheck(userCtx interface{}, node parsley.NonTerminalNode) (v interface{}, err parsley.Error)
 //@   requires node != nil && 0 <= s.i && s.i < len(node.Children()) && node.Children()[s.i] != nil && parsley.NodeOK(node.Children()[s.i])
 //@   ensures  err == nil && v == node.Children()[s.i].Schema()
@@ -31,3 +31,39 @@ package interpreter
 //@ closure Nil$1(userCtx interface{}, node parsley.NonTerminalNode) (v interface{}, err parsley.Error)
 //@   ensures  v == nil && err == nil
 //@   assigns  nothing
+
+//@ -- Array / Object: evaluate every second child, in order, through EvaluateNode; the first error aborts. The
+//@ -- children evaluated must be well-formed single nodes (a child of a non-terminal is never a list of alternatives).
+//@ pure func evalOK(c parsley.Node) bool = c != nil && parsley.NodeOK(c) && !typeis[ast.NodeList](c)
+//@ func Array() (r ast.InterpreterFunc)
+//@   ensures  r != nil
+//@   assigns  nothing
+//@ closure Array$1(userCtx interface{}, node parsley.NonTerminalNode) (v interface{}, err parsley.Error)
+//@   requires node != nil && len(node.Children()) <= 1 << 40
+//@   requires forall k int :: 0 <= k && k < len(node.Children()) && k % 2 == 0 ==> evalOK(node.Children()[k])
+//@   ensures  [value-or-error;C04,C13] v == nil || err == nil
+//@   ensures  [array;C13] err == nil ==> typeis[[]interface{}](v) && len(v.([]interface{})) == (old(len(node.Children())) + 1) / 2 && fresh(v.([]interface{}))
+//@   ensures  err != nil ==> err.Pos() >= 0
+//@   assigns  fields[parsley.Node]("children")
+//@ loop 1 (i int, nodes []parsley.Node, res []interface{})
+//@   invariant 0 <= i && i % 2 == 0 && i <= len(nodes) + 1 && same(nodes, old(node.Children())) && fresh(res) && len(res) == (len(nodes) + 1) / 2
+//@   invariant forall k int :: 0 <= k && k < len(nodes) && k % 2 == 0 ==> evalOK(nodes[k])
+
+//@ -- an object's entries: non-terminals of (at least) key, separator, value. Object panics by design when a key does
+//@ -- not evaluate to a string: what user code will compute cannot be stated before the call, so that one type
+//@ -- assertion is an assumption (flag design_panic), listed in every evidence file.
+//@ pure func entryOK(c parsley.Node) bool = c != nil && typeis[parsley.NonTerminalNode](c) && len(c.(parsley.NonTerminalNode).Children()) >= 3 && evalOK(c.(parsley.NonTerminalNode).Children()[0]) && evalOK(c.(parsley.NonTerminalNode).Children()[2])
+//@ func Object() (r ast.InterpreterFunc)
+//@   ensures  r != nil
+//@   assigns  nothing
+//@ closure Object$1(userCtx interface{}, node parsley.NonTerminalNode) (v interface{}, err parsley.Error)
+//@   requires node != nil && len(node.Children()) <= 1 << 40
+//@   requires forall k int :: 0 <= k && k < len(node.Children()) && k % 2 == 0 ==> entryOK(node.Children()[k])
+//@   ensures  [value-or-error;C04,C13] v == nil || err == nil
+//@   ensures  [object;C13] err == nil ==> typeis[map[string]interface{}](v)
+//@   ensures  err != nil ==> err.Pos() >= 0
+//@   assigns  fields[parsley.Node]("children")
+//@   flag design_panic=safe/assert#2
+//@ loop 1 (i int, nodes []parsley.Node, res map[string]interface{})
+//@   invariant 0 <= i && i % 2 == 0 && i <= len(nodes) + 1 && same(nodes, old(node.Children())) && fresh(res)
+//@   invariant forall k int :: 0 <= k && k < len(nodes) && k % 2 == 0 ==> entryOK(nodes[k])
